@@ -350,6 +350,7 @@ class kMinPathErrorCycles(walkmodel.AbstractWalkModelDiGraph):
                     product_var=self.pi_vars[(u, v, i)],
                     lb=0,
                     ub=self.w_max,
+                    integer_ub=max(self.w_max, self.edge_upper_bounds[(u, v)]),
                     name=f"10_u={u}_v={v}_i={i}",
                 )
 
@@ -373,6 +374,7 @@ class kMinPathErrorCycles(walkmodel.AbstractWalkModelDiGraph):
                         product_var=self.gamma_vars[(u, v, i)],
                         lb=0,
                         ub=self.w_max,
+                        integer_ub=max(self.w_max, self.edge_upper_bounds[(u, v)]),
                         name=f"12_u={u}_v={v}_i={i}",
                     )
 
